@@ -102,6 +102,8 @@ InitObsFam(fam) ==
    lastsec |-> [p \in Parties |-> "none"],
    wire |-> {},                               \* <<text, resent, wire id>> of every data message emitted
    started |-> FALSE,
+   used |-> [p \in Parties |-> {}],          \* receiving MAC keys that verified an accepted message
+   disclosed |-> [p \in Parties |-> {}],     \* MAC keys disclosed so far
    flagged |-> {}]
 InitObs == InitObsFam("none")
 
@@ -119,6 +121,10 @@ NextObs(e) ==
      !.accepted[e.p] = IF e.ev = "Send" /\ st[e.p].ms = "enc" /\ ~e.err THEN Append(@, e.text) ELSE @,
      !.lastsec[e.p] = IF SecOf(e) # <<>> THEN SecOf(e)[Len(SecOf(e))] ELSE @,
      !.wire = @ \cup {<<e.out[i].text, e.out[i].rs, e.out[i].id>> : i \in {j \in DataOuts(e) : e.out[j].text > 0}},
+     !.used[e.p] = IF e.ev = "Recv" /\ e.m.t = "D" /\ ~e.err /\ st[e.p].ms = "enc" /\ e.m.mac[1] > 0
+                       /\ (e.plain > 0 \/ HasEv(e, "msg:LogHeartbeatReceived"))
+                    THEN @ \cup {<<e.m.mac[1], e.m.mac[2]>>} ELSE IF e.st.ms # "enc" THEN {} ELSE @,
+     !.disclosed[e.p] = @ \cup UNION {TupSet(e.out[i].discl) : i \in DataOuts(e)},
      !.started = @ \/ e.st.auth \notin {"nil", "none"} \/ e.st.ms = "enc"]
 
 \* set of <<property, reason>> violated by event e (pre-state st, post observation o)
@@ -139,6 +145,10 @@ PropViolations(e, o) ==
         THEN {<<"C05", "text delivered twice">>} ELSE {})
   \cup (IF e.ev # "Done" /\ e.st.ms = "enc" /\ \E i \in DataOuts(e) : TupSet(e.out[i].discl) \cap LiveRecvKeys(e.st) # {}
         THEN {<<"C09", "disclosed MAC key of a key pair that is still accepted">>} ELSE {})
+  \cup (IF e.ev # "Done" /\ e.st.ms = "enc" /\ \E k \in o.used[p] :
+             k \notin LiveRecvKeys(e.st) /\ k \notin TupSet(e.st.pend) /\ k \notin o.disclosed[p]
+             /\ ~\E i \in DOMAIN e.st.macs : <<e.st.macs[i][3], e.st.macs[i][4]>> = k
+        THEN {<<"C09", "used MAC key of a retired key pair was never disclosed">>} ELSE {})
   \cup (IF e.ev # "Done" /\ ((e.st.ms = "enc") # (o.lastsec[p] \in {"sec:GoneSecure", "sec:StillSecure"}))
         THEN {<<"C18", "encrypted state and security events disagree">>} ELSE {})
   \cup (IF e.ev # "Done" /\ Cardinality({i \in DataOuts(e) : e.out[i].rs}) > 1
